@@ -69,3 +69,15 @@ func VerifC39NewRunSession(s *Server, co net.Conn, namespace, user, db string, k
 func VerifC39SetMaxExecuteTime(m *Manager, namespace string, ms int) {
 	m.GetNamespace(namespace).maxSqlExecuteTime = ms
 }
+
+// VerifC39SetMultiStatements switches proxy-side multi-statement packets on or off for the session:
+// the namespace option support_multi_query and the client capability CLIENT_MULTI_STATEMENTS
+// (handleQuery then splits a COM_QUERY text into its statements, doMultiStmts).
+func VerifC39SetMultiStatements(cc *Session, m *Manager, namespace string, on bool) {
+	m.GetNamespace(namespace).supportMultiQuery = on
+	if on {
+		cc.c.capability |= mysql.ClientMultiStatements
+	} else {
+		cc.c.capability &^= mysql.ClientMultiStatements
+	}
+}
